@@ -48,6 +48,10 @@ class Machine:
         self.tap_overflow = False
         self.jet_inputs = []  # (jet name, input term)
         self._canon_memo = {}
+        # node index -> name: the node is replaced by an uninterpreted function of its input (compositional
+        # reasoning: a verdict obtained this way holds for every meaning the sub-expression could have)
+        self.opaque = {}
+        self.opaque_calls = 0
 
     # -- type helpers -------------------------------------------------------------------
     def ty(self, tid):
@@ -146,6 +150,14 @@ class Machine:
         n = self.p.nodes[idx]
         k = n["k"]
         types = self.p.types
+        if idx in self.opaque:
+            name = self.opaque[idx]
+            self.opaque_calls += 1
+            wt = types[n["t"]]["w"]
+            out = T.uf(name, inp, wt) if wt else None
+            if out is not None and self.has_padding(n["t"]):
+                out = self.canon(out, n["t"])
+            return out, T.uf(name + "_fails", inp, 1)
         if k == "iden":
             return inp, T.false()
         if k == "unit":
